@@ -20,7 +20,7 @@ from concurrent.futures.process import BrokenProcessPool
 
 from dst.engine import HarnessError
 
-POLICIES = ['uniform', 'reverse', 'straggler', 'ties', 'fifo']
+POLICIES = ['uniform', 'reverse', 'straggler', 'ties', 'fifo', 'perm']
 
 # The real classes, captured before any seam is installed.
 RealProcessPoolExecutor = cf.ProcessPoolExecutor
@@ -107,6 +107,7 @@ class PoolSim:
                 self.closed = False
                 self.order = []       # completion order (task ids)
                 self.straggler = None
+                self.perm = None
 
             # -- Executor API ---------------------------------------------
             def submit(self, fn, /, *args, **kwargs):
@@ -156,6 +157,10 @@ class PoolSim:
                     return 1.0
                 if pol == 'fifo':
                     return 1.0 + 0.001 * tid
+                if pol == 'perm' and self.perm is not None:
+                    # a uniformly drawn completion order (all tasks run
+                    # concurrently: as many workers as tasks)
+                    return 1.0 + self.perm.index(tid)
                 d = ch.uniform(key, 1.0, 10.0, 900)
                 if pol == 'straggler':
                     if self.straggler is None:
@@ -167,6 +172,15 @@ class PoolSim:
 
             def _dispatch(self):
                 ctx = sim.ctx
+                if sim.policy == 'perm' and self.perm is None and \
+                        self.queue and len(self.queue) <= self.nw and \
+                        not self.order:
+                    rest = [q[0] for q in self.queue]
+                    self.perm = []
+                    while rest:       # Lehmer code, one draw per position
+                        j = ctx.ch.randint(ctx.key(
+                            'pool', self.idx, 'perm', len(rest)), len(rest))
+                        self.perm.append(rest.pop(j))
                 while self.queue and self.free:
                     tid, item, fut = self.queue.pop(0)
                     if not fut.set_running_or_notify_cancel():
